@@ -195,7 +195,9 @@ func TestVerifC16_ProcLive(t *testing.T) {
 			sentinel := fmt.Sprintf("s%dq", i)
 			sb := "change-query(" + sentinel + ")"
 			rawRequest(s.Port, []byte(fmt.Sprintf("POST / HTTP/1.1\r\n%sContent-Length: %d\r\n\r\n%s", hdr, len(sb), sb)), 0, 0)
-			before, okS := s.waitKeyed(key, func(st *Status) bool { return st.Query == sentinel && !st.Reading && st.MatchCount == 0 && st.Position <= 0 })
+			before, okS := s.waitKeyed(key, func(st *Status) bool {
+				return st.Query == sentinel && !st.Reading && st.MatchCount == 0 && st.Position <= 0
+			})
 			if !okS {
 				t.Fatalf("sentinel query did not become visible\nhistory: %v", history)
 			}
@@ -305,7 +307,9 @@ func TestVerifC16_ProcPostEqualsBind(t *testing.T) {
 			}
 			s := StartSession(t, SessionCfg{Args: args, Input: []byte(strings.Join(lines, "\n") + "\n"), Width: 60, Height: 12})
 			defer s.Close()
-			if _, ok := s.WaitFor(10, func(st *Status) bool { return !st.Reading && st.TotalCount == len(lines) && st.MatchCount == len(lines) && st.Current != nil }); !ok {
+			if _, ok := s.WaitFor(10, func(st *Status) bool {
+				return !st.Reading && st.TotalCount == len(lines) && st.MatchCount == len(lines) && st.Current != nil
+			}); !ok {
 				infra(t, "session did not settle")
 			}
 			if viaBind {
